@@ -12,6 +12,13 @@ history, ("lib", name), says which library the first tree is parsed from; a hist
   copy(i)            tree_n = copy.deepcopy(tree_i)
   edit(i, op, K)     add/remove symbol/equation/class through the AST API; replace_class = remove_class(K) +
                      add_class(a different class of the same name, a new object no earlier copy or lookup saw)
+  edit(i, graft_class, K, j)   transplant: x = tree_j.find_class(K) -- the public lookup hands out a copy of the
+                     class -- and <package of K in tree_i>.add_class(x), j != i: tree i's K becomes what tree j's K
+                     is at that moment (added if tree i has no K any more), under the same name.  The one edit
+                     whose argument comes out of a live tree instead of being built or parsed for the purpose: it
+                     must change tree i only (tree j and all others keep what they had) and later edits of either
+                     tree must not reach the other through the transplanted class.  In tree i's edit list it is
+                     recorded together with tree j's edit list at that moment.
   obs(i, route, K)   flatten class K ('*' = every class, one after the other) of the *live* tree i through
                      route in {inplace: tree.flatten(tree_i, K); sympy / xml: the backend's generate(tree_i, K),
                      which deep-copies the tree and flattens the copy} -- the result is compared with the
@@ -23,8 +30,12 @@ history, ("lib", name), says which library the first tree is parsed from; a hist
 
 Reference: a *fresh parse of the library to which only that tree's own edits were applied*, observed
 through the same route -- so an edit must be visible in its own tree and invisible in all others,
-whatever the copy ancestry and whatever was observed before.  The reference results are computed before
-the exploration starts (in other processes), so computing them never runs in between two events of a history.
+whatever the copy ancestry and whatever was observed before.  (A graft_class edit is applied to the reference
+by *moving* -- remove_class + add_class, no lookup and no copy -- class K out of a second throw-away fresh
+parse that carries the source tree's edit list as recorded.)  The reference results are computed before the
+exploration starts (in other processes) for every edit list a tree can have within the bound (enumerated by
+running the event alphabet on the bookkeeping alone), so computing them never runs in between two events of a
+history.
 
 Bounds are per library and tier (LIBS[..]["bounds"]: history length, deviations = edit + obs events, edit events;
 several entries = one search each, the union is explored); the bound travels in the lib event so that the
@@ -42,7 +53,6 @@ class observed last is the first to be observed again).  Being made on a replay 
 they are not part of the history that is extended.
 """
 import hashlib
-import itertools
 import json
 
 from vf.core import bfs, common, dump
@@ -118,6 +128,7 @@ end P;
 """
 
 OPS = ["add_symbol", "add_equation", "remove_equation", "remove_symbol", "add_class", "remove_class", "replace_class"]
+GRAFT = "graft_class"  # the edit that takes its argument out of another live tree: ("edit", i, GRAFT, K, j)
 BACKENDS = ["sympy", "xml"]
 ALL_ROUTES = ["inplace", "sympy", "xml"]  # routes of obs events (xml = deepcopy + flatten + rendering, so a bare
 #                                           'copy' route as an event would add nothing to it)
@@ -195,10 +206,51 @@ def _resolve(tree, dotted):
     return c
 
 
-def apply_edit(tree, op, cls, serial, lib="flat"):
-    """One edit through the public AST API.  Deterministic content; `serial` numbers this tree's edits."""
+def entry(ev, edits):
+    """What an edit event adds to the edit list of its tree: (op, K), for a graft (op, K, the source tree's edit list
+    at that moment) -- `edits`: the per-tree edit lists before the event."""
+    return (ev[2], ev[3]) if len(ev) == 4 else (ev[2], ev[3], edits[ev[4]])
+
+
+def found_copy(tree, cls):
+    """Class `cls` of the live tree the way a user gets hold of it: the public lookup, which returns a copy of
+    the class (None if the tree has no such class)."""
+    from pymoca import ast
+
+    try:
+        return tree.find_class(ast.ComponentRef.from_string(cls))
+    except ast.ClassNotFoundError:
+        return None
+
+
+def moved_out(lib, edits, cls):
+    """Reference counterpart of found_copy: class `cls` *moved out* (remove_class; no lookup, no copy) of a throw-away
+    fresh parse carrying `edits`."""
+    src = ref_tree(lib, edits)
+    k = _resolve(src, cls)
+    if k is not None:
+        k.parent.remove_class(k)
+    return k
+
+
+def ref_tree(lib, edits):
+    """Fresh parse + the edits of one edit list, never copied and never looked at before."""
+    t = fresh_tree(lib)
+    for n, e in enumerate(edits):
+        apply_edit(t, e[0], e[1], n, lib, moved_out(lib, e[2], e[1]) if e[0] == GRAFT else None)
+    return t
+
+
+def apply_edit(tree, op, cls, serial, lib="flat", donor=None):
+    """One edit through the public AST API.  Deterministic content; `serial` numbers this tree's edits; `donor`:
+    the class a graft adds (None: the source had no such class, nothing happens)."""
     from pymoca import ast, parser
 
+    if op == GRAFT:
+        where = _resolve(tree, cls.rpartition(".")[0])
+        if where is not None and donor is not None:
+            where.add_class(donor)  # keeps its name: takes the place of tree's own K if that is still there
+        return
     if op == "add_class":
         where = _resolve(tree, LIBS[lib]["add_to"])
         if where is None:
@@ -282,10 +334,7 @@ def _expect_job(job):
             continue
         res[kind] = {}
         for cls in LIBS[lib]["flat"]:
-            t = fresh_tree(lib)
-            for n, (op, k) in enumerate(edits):
-                apply_edit(t, op, k, n, lib)
-            res[kind][cls] = observe(t, route, cls)
+            res[kind][cls] = observe(ref_tree(lib, edits), route, cls)
     return lib, edits, res
 
 
@@ -332,10 +381,11 @@ class World:
             self.parent.append(i)
             return []
         if ev[0] == "edit":
-            _, i, op, cls = ev
+            i, op, cls = ev[1:4]
             self.n_edit_events += 1
-            apply_edit(self.trees[i], op, cls, len(self.edits[i]), self.lib)
-            self.edits[i] = self.edits[i] + ((op, cls),)
+            donor = found_copy(self.trees[ev[4]], cls) if op == GRAFT else None
+            apply_edit(self.trees[i], op, cls, len(self.edits[i]), self.lib, donor)
+            self.edits[i] = self.edits[i] + (entry(ev, self.edits),)
             return []
         _, i, route, cls = ev
         self.obslog = self.obslog + ((i, route, cls, len(self.edits[i]), len(self.trees)),)
@@ -385,22 +435,63 @@ class World:
         return (self.lib, tuple(self.edits), tuple(self.parent), self.obslog, dump.digest(self.trees))
 
     def events(self):
-        tier = _CFG["tier"]
-        depth, max_edits = self.bound or (max(b[0] for b in LIBS[self.lib]["bounds"][tier]), max_edits_of(self.lib, tier))
-        n_trees = len(self.edits)
-        evs = []
-        if n_trees < MAX_TREES:
-            evs += [("copy", i) for i in range(n_trees)]
-        if self.n_edit_events < max_edits:
-            for i in range(n_trees):
-                for op, cls in edit_actions(self.lib, tier):
-                    evs.append(("edit", i, op, cls))
-        if len(self.obslog) < MAX_OBS and self.n_events + 1 < depth:
-            for i in range(n_trees):
-                for route in LIBS[self.lib]["routes"][tier]:
-                    for cls in _CFG["obs_classes"]:
-                        evs.append(("obs", i, route, cls))
-        return evs
+        return enabled(self.lib, _CFG["tier"], self.bound, len(self.edits), self.n_events, self.n_edit_events,
+                       len(self.obslog))
+
+
+def enabled(lib, tier, bound, n_trees, n_events, n_edit_events, n_obs):
+    """The events offered in a state; depends on the bookkeeping only (so the edit lists that can occur can be
+    enumerated without running anything, see reachable_edit_lists)."""
+    depth, max_edits = bound or (max(b[0] for b in LIBS[lib]["bounds"][tier]), max_edits_of(lib, tier))
+    evs = []
+    if n_trees < MAX_TREES:
+        evs += [("copy", i) for i in range(n_trees)]
+    if n_edit_events < max_edits:
+        for i in range(n_trees):
+            for op, cls in edit_actions(lib, tier):
+                evs.append(("edit", i, op, cls))
+        for i in range(n_trees):
+            for j in range(n_trees):
+                for cls in LIBS[lib]["edit"][tier] if j != i else []:
+                    evs.append(("edit", i, GRAFT, cls, j))
+    if n_obs < MAX_OBS and n_events + 1 < depth:
+        for i in range(n_trees):
+            for route in LIBS[lib]["routes"][tier]:
+                for cls in _CFG["obs_classes"]:
+                    evs.append(("obs", i, route, cls))
+    return evs
+
+
+def reachable_edit_lists(lib, tier):
+    """Every edit list a tree can have in a history within the library's bounds (and every prefix): the event
+    alphabet run on the bookkeeping alone -- per-tree edit lists, number of events / edit events / obs events,
+    deviations spent -- with the limits bfs.search applies."""
+    out = {()}
+    for depth, max_dev, max_edits in LIBS[lib]["bounds"][tier]:
+        start = (((),), 0, 0, 0, 0)
+        seen, frontier = {start}, [start]
+        while frontier:
+            nxt = []
+            for edits, n_ev, n_ed, n_obs, dev in frontier:
+                if n_ev >= depth:
+                    continue
+                for ev in enabled(lib, tier, (depth, max_edits), len(edits), n_ev, n_ed, n_obs):
+                    d = dev + (0 if ev[0] == "copy" else 1)
+                    if d > max_dev:
+                        continue
+                    if ev[0] == "copy":
+                        st = (edits + (edits[ev[1]],), n_ev + 1, n_ed, n_obs, d)
+                    elif ev[0] == "edit":
+                        i = ev[1]
+                        st = (edits[:i] + (edits[i] + (entry(ev, edits),),) + edits[i + 1:], n_ev + 1, n_ed + 1, n_obs, d)
+                    else:
+                        st = (edits, n_ev + 1, n_ed, n_obs + 1, d)
+                    if st not in seen:
+                        seen.add(st)
+                        nxt.append(st)
+            frontier = nxt
+        out.update(l[:n] for st in seen for l in st[0] for n in range(len(l) + 1))
+    return sorted(out, key=lambda l: (len(l), repr(l)))
 
 
 def build(hist):
@@ -442,11 +533,6 @@ def max_edits_of(lib, tier):
     return max(b[2] for b in LIBS[lib]["bounds"][tier])
 
 
-def edit_lists(lib, tier):
-    acts = edit_actions(lib, tier)
-    return [tuple(p) for n in range(max_edits_of(lib, tier) + 1) for p in itertools.product(acts, repeat=n)]
-
-
 def _kinds(lib, tier):
     return ["flat"] + [r for r in BACKENDS if r in LIBS[lib]["routes"][tier]]
 
@@ -455,7 +541,7 @@ def run(ctx):
     _init(ctx.tier)
     with common.Pool() as pool:  # reference tables first, in processes of their own
         for lib in LIB_ORDER:
-            prepare_expected(lib, edit_lists(lib, ctx.tier), _kinds(lib, ctx.tier), pool)
+            prepare_expected(lib, reachable_edit_lists(lib, ctx.tier), _kinds(lib, ctx.tier), pool)
     per_lib = {}
     with common.Pool(init=_init, initargs=(ctx.tier,)) as pool:  # forked now: workers inherit the tables
         for lib in LIB_ORDER:
@@ -521,7 +607,7 @@ def replay(case):
         if ev[0] == "copy":
             per_tree.append(per_tree[ev[1]])
         elif ev[0] == "edit":
-            per_tree[ev[1]] = per_tree[ev[1]] + ((ev[2], ev[3]),)
+            per_tree[ev[1]] = per_tree[ev[1]] + (entry(ev, per_tree),)
             lists.add(per_tree[ev[1]])
     prepare_expected(lib, sorted({p[:n] for p in lists for n in range(len(p) + 1)}))
     ok = True
